@@ -800,3 +800,30 @@ func init() {
 		regScenario(b+"-hb", hb(b))
 	}
 }
+
+func init() {
+	// one FSM batch that mixes commands, a barrier and a configuration entry (batching FSM, responses must stay paired)
+	mkMix := func(fsm FSMKind) func() *Scenario {
+		return func() *Scenario {
+			ns := append(voters(3), NodeSpec{Suffrage: raft.Nonvoter, StartUp: true})
+			return &Scenario{Nodes: ns, FSM: fsm, Devs: DevAll, Horizon: 500, Goal: goalConverged, AutoRestart: true,
+				Conf: func(i int, c *raft.Config) { c.MaxAppendEntries = 8; c.BatchApplyCh = true },
+				Steps: []Step{
+					stepApplyLeader("apply0"),
+					stepDo("apply+barrier+apply+addnonvoter+apply", whenSettled, func(w *World) {
+						l := w.leader()
+						w.apply(l, 0)
+						w.barrier(l)
+						w.apply(l, 0)
+						w.addNonvoter(l, 3, 0)
+						w.apply(l, 0)
+						w.apply(l, 0)
+					}),
+					stepDo("apply-last", whenSettled, func(w *World) { w.apply(w.leader(), 0) }),
+				}}
+		}
+	}
+	regScenario("batch-mix", mkMix(FSMBatching))
+	regScenario("batch-mix-plain", mkMix(FSMPlain))
+	regScenario("batch-mix-cfgstore", mkMix(FSMConfigStore))
+}
